@@ -180,8 +180,14 @@ def generate(rng, index, tier):
                     sx, ex = domains.draw(rng, xn)
                     w_ = focus[-1]
                     w_['in'] = list(w_.get('in', []))
-                    w_['in'].insert(rng.randrange(len(w_['in']) + 1), {'k': 'raw', 'id': ids[xn], 'q': 2, 'a': list(ex)})
-                    focus.insert(len(focus) - 1, {'k': 'sys', 'name': xn, 's': sx, 'e': ex, 'in': [], 'noend': True})
+                    if rng.chance(0.5):
+                        w_['in'].insert(rng.randrange(len(w_['in']) + 1), {'k': 'raw', 'id': ids[xn], 'q': 2, 'a': list(ex)})
+                        focus.insert(len(focus) - 1, {'k': 'sys', 'name': xn, 's': sx, 'e': ex, 'in': [], 'noend': True})
+                    else:
+                        # ... or the other way round: it starts inside the focus and ends after it (or never)
+                        w_['in'].insert(rng.randrange(len(w_['in']) + 1), {'k': 'sys', 'name': xn, 's': sx, 'e': ex, 'in': [], 'noend': True})
+                        if rng.chance(0.7):
+                            focus.append({'k': 'raw', 'id': ids[xn], 'q': 2, 'a': list(ex)})
             if name in worlds.DYLD_STRING_ARG and focus and rng.chance(0.2):
                 # the string the focus names is announced again with no text (released), by this thread inside a call and by
                 # another thread
@@ -211,7 +217,15 @@ def generate(rng, index, tier):
         helpers = ['VFS_LOOKUP', 'TRACE_STRING_GLOBAL', 'PERF_THD_Data', 'PERF_STK_UHdr', 'PERF_STK_UData', 'DYLD_uuid_map_a',
                    'RealFaultAddressInternal', 'TRACE_DATA_NEWTHREAD', 'TRACE_STRING_NEWTHREAD', 'INTERRUPT']
         table_spec = {'drop': [ids[h] for h in rng.sample(helpers, rng.randint(1, 3)) if h != name and h in ids]}
-    scn = {'threads': threads, 'schedule': kernel.draw_schedule(rng, per, rng.pick(kernel.SHAPES)), 'focus': name, 'table': table_spec,
+    same_process = rng.chance(0.25)
+    if same_process:
+        # all threads belong to one process the parser already knows, and an exec / new-thread pair somewhere names that process
+        prs = [op['ops'][0] for th in threads for op in th['ops'] if op.get('k') == 'seq' and len(op.get('ops', [])) == 2 and op['ops'][0].get('name') in ('TRACE_DATA_EXEC', 'TRACE_DATA_NEWTHREAD')]
+        if prs and rng.chance(0.7):
+            d_ = rng.pick(prs)
+            d_['a'][0 if d_['name'] == 'TRACE_DATA_EXEC' else 1] = 4242
+        per = kernel.expand_threads(threads, ids)
+    scn = {'threads': threads, 'schedule': kernel.draw_schedule(rng, per, rng.pick(kernel.SHAPES)), 'focus': name, 'table': table_spec, 'same_process': same_process,
            'double_seed': rng.randrange(1 << 30), 'colour': index % 7 == 0,
            't0': (rng.randrange(1, 1 << 30) << 8) | 0x11, 'tsmode': worlds.draw_tsmode(rng, p=0.2)}
     return scn
@@ -253,9 +267,9 @@ def _special(rng, name, ctx):
 PREMISE = ('is not a valid',)
 
 
-def _feed_all(table, stream):
+def _feed_all(table, stream, init_tp=None):
     """Returns None or (exception, record index)."""
-    parser = tool.tp_mod.TracesParser(table, {}, {})
+    parser = tool.tp_mod.TracesParser(table, dict(init_tp or {}), {})
     i = -1
     try:
         for i, ev in enumerate(worlds.kevents_of(stream)):
@@ -303,8 +317,10 @@ def execute(scn):
     shapes = set()
     premise_in_fault_free = [False]
 
+    init_tp = {th['tid']: 4242 for th in scn['threads']} if scn.get('same_process') else None
+
     def judge(variant, label, detail):
-        r = _feed_all(table, variant)
+        r = _feed_all(table, variant, init_tp)
         if r is None:
             return True
         e, i = r
